@@ -247,6 +247,9 @@ func VerifC10Options() {
 func VerifC10Batch2() { c10Batch(2, 2, 6) }
 func VerifC10Batch3() { c10Batch(3, 2, 6) }
 
+// thorough: 3 rows, 1-2 filters over the first 3 column-set shapes
+func VerifC10Batch3Narrow() { c10Batch(3, 2, 3) }
+
 func VerifC10Witness() {
 	zReset()
 	schema := zSchema()
